@@ -380,6 +380,11 @@ wrapint wrapint::operator^(wrapint x) const {
 
 wrapint wrapint::operator<<(wrapint x) const {
   sanity_check_bitwidths(x);
+  if (x._n >= _width) {
+    // all the bits are shifted out (and a C++ shift by 64 or more is
+    // undefined)
+    return wrapint(0, _width, _mod);
+  }
 
   uint64_t r = (_width == 64 ? (_n << x._n) : (_n << x._n) % _mod);
   return wrapint(r, _width, _mod);
@@ -388,6 +393,11 @@ wrapint wrapint::operator<<(wrapint x) const {
 // logical right shift: blanks filled by 0's
 wrapint wrapint::lshr(wrapint x) const {
   sanity_check_bitwidths(x);
+  if (x._n >= _width) {
+    // all the bits are shifted out (and a C++ shift by 64 or more is
+    // undefined)
+    return wrapint(0, _width, _mod);
+  }
   return wrapint(_n >> x._n, _width, _mod);
 }
 
@@ -396,6 +406,11 @@ wrapint wrapint::ashr(wrapint x) const {
   sanity_check_bitwidths(x);
   if (x._n == 0) {
     return *this;
+  }
+  if (x._n >= _width) {
+    // only copies of the sign bit are left (and a C++ shift by 64 or
+    // more, or by the wrapped around _width - x._n, is undefined)
+    return (msb() ? get_unsigned_max(_width) : wrapint(0, _width, _mod));
   }
   if (!msb()) {
     return wrapint(_n >> x._n, _width, _mod);
